@@ -888,7 +888,7 @@ func runC13(args []string) error {
 				}
 			case "await":
 				awaits++
-				rep.Stats["await_"+strings.Fields(obs[j].Await+" ?")[0]]++
+				rep.Stats["await_"+strings.Fields(obs[j].Await + " ?")[0]]++
 			case "q":
 				rep.Stats["ops_queued"] += len(s.Ops)
 			}
